@@ -17,9 +17,14 @@ use netflow_parser::NetflowPacket;
 pub const KINDS: [&str; 4] = ["v9.templates", "v9.options_templates", "ipfix.templates", "ipfix.options_templates"];
 
 pub struct IdSpace {
+    /// the model cache after the definitions (and the data, which changes nothing)
     pub ex: Exporter,
+    /// the model cache after the cross-kind epilogue
+    pub ex_final: Exporter,
     pub define: Vec<Pkt>,
     pub data: Vec<Pkt>,
+    /// cross-kind epilogue: one packet defining templates of the other kind, one with data for them
+    pub cross: Vec<Pkt>,
 }
 
 fn spec(t: u16, l: u16) -> IpfixSpec {
@@ -120,7 +125,70 @@ pub fn build(kind: usize, first: u16, n: usize) -> IdSpace {
             }
         }
     }
-    IdSpace { ex, define, data }
+    // cross-kind epilogue: a template of the *other* kind of the same protocol under a brand-new id
+    // (if the id space leaves one) and under an id that is currently cached as this kind (it moves
+    // maps), then data for both
+    let ex_define = ex.clone();
+    let mut cross: Vec<Pkt> = vec![];
+    let last = *ids.last().unwrap_or(&256);
+    let new_id: Option<u16> = if first > 256 { Some(first - 1) } else if last < 65535 { Some(last + 1) } else { None };
+    let moved = ids[ids.len() / 2];
+    // the brand-new id first: at that moment the other map is still empty
+    let mut cross_ids: Vec<u16> = vec![];
+    cross_ids.extend(new_id);
+    cross_ids.push(moved);
+    match kind {
+        0 | 1 => {
+            let to_options = kind == 0;
+            let mut fs = vec![];
+            let mut dfs = vec![];
+            for id in &cross_ids {
+                if to_options {
+                    let t = V9OptTmpl { id: *id, scope: vec![(1, 4)], opts: vec![(10, 2)] };
+                    ex.v9_t.remove(id);
+                    ex.v9_o.insert(*id, t.clone());
+                    fs.push(V9FlowSet::OptionsTemplate { templates: vec![t.clone()], padding: vec![0, 0] });
+                    dfs.push(V9FlowSet::OptionsData { tmpl: t, records: vec![(vec![(*id as u32).to_be_bytes().to_vec()], vec![val(*id, 2)])], padding: vec![] });
+                } else {
+                    let t = V9Tmpl { id: *id, fields: vec![(1, 4), (2, 2)] };
+                    ex.v9_o.remove(id);
+                    ex.v9_t.insert(*id, t.clone());
+                    fs.push(V9FlowSet::Template { templates: vec![t.clone()], padding: vec![] });
+                    dfs.push(V9FlowSet::Data { tmpl: t, records: vec![vec![(*id as u32).to_be_bytes().to_vec(), val(*id, 2)]], padding: vec![] });
+                }
+            }
+            seq += 1;
+            cross.push(Pkt::V9(V9Pkt { count: fs.len() as u16, sys_up_time: 1, unix_secs: 2, seq, source_id: 3, flowsets: fs }));
+            seq += 1;
+            cross.push(Pkt::V9(V9Pkt { count: dfs.len() as u16, sys_up_time: 1, unix_secs: 2, seq, source_id: 3, flowsets: dfs }));
+        }
+        _ => {
+            let to_options = kind == 2;
+            let mut sets = vec![];
+            let mut dsets = vec![];
+            for id in &cross_ids {
+                if to_options {
+                    let t = IpfixOptTmpl { id: *id, scope_count: 1, fields: vec![spec(10, 4), spec(2, 2)] };
+                    ex.ix_t.remove(id);
+                    ex.ix_o.insert(*id, t.clone());
+                    sets.push(IpfixSet::OptionsTemplate { records: vec![t.clone()], padding: vec![0, 0] });
+                    dsets.push(IpfixSet::Data { id: *id, options: true, fields: t.fields.clone(), records: vec![vec![Cell::fixed((*id as u32).to_be_bytes().to_vec()), Cell::fixed(val(*id, 2))]], padding: vec![] });
+                } else {
+                    let t = IpfixTmpl { id: *id, fields: vec![spec(1, 4), spec(2, 2)] };
+                    ex.ix_o.remove(id);
+                    ex.ix_t.insert(*id, t.clone());
+                    sets.push(IpfixSet::Template { records: vec![t.clone()], padding: vec![] });
+                    dsets.push(IpfixSet::Data { id: *id, options: false, fields: t.fields.clone(), records: vec![vec![Cell::fixed((*id as u32).to_be_bytes().to_vec()), Cell::fixed(val(*id, 2))]], padding: vec![] });
+                }
+            }
+            seq += 1;
+            cross.push(Pkt::Ipfix(IpfixMsg { export_time: 1, seq, domain: 3, sets }));
+            seq += 1;
+            cross.push(Pkt::Ipfix(IpfixMsg { export_time: 1, seq, domain: 3, sets: dsets }));
+        }
+    }
+    let _ = seq;
+    IdSpace { ex: ex_define, ex_final: ex, define, data, cross }
 }
 
 fn one(sut: &mut Sut, p: &Pkt, st: &mut Stats) -> Result<(), Div> {
@@ -165,6 +233,12 @@ pub fn run(w: &mut W, prop: &str, j0: u64, kinds: &[usize]) -> u64 {
                 if snap(&sut.parsers[0]) != before {
                     return Err(div("idspace/data-only", "changed", "caches changed by packets that contain only data sets".into()));
                 }
+                // with thousands of ids of one kind cached: templates of the other kind, under a new
+                // id and under a cached id (which moves maps), then data for them
+                for p in &sp.cross {
+                    one(&mut sut, p, &mut st)?;
+                }
+                super::hist::cache_matches_model(&sut.parsers[0], &sp.ex_final)?;
                 Ok(())
             })();
             w.rep.count("idspace.ids_defined", n as u64);
@@ -197,7 +271,7 @@ pub fn run_json(w: &mut W, j0: u64) -> u64 {
             let sp = build(k, first, n);
             let mut sut = Sut::new(2);
             let mut bad: Option<Div> = None;
-            for p in sp.define.iter().chain(sp.data.iter()) {
+            for p in sp.define.iter().chain(sp.data.iter()).chain(sp.cross.iter()) {
                 let wire = p.wire();
                 let r0 = sut.parse(0, &wire);
                 let r1 = sut.parse(1, &wire);
@@ -224,4 +298,16 @@ pub fn run_json(w: &mut W, j0: u64) -> u64 {
         j += 1;
     }
     j
+}
+
+/// C01: the id-space histories as plain histories (no oracle; crash / overflow / hang monitors only)
+pub fn histories(w: &W) -> Vec<(&'static str, Vec<Vec<u8>>)> {
+    let (first, n) = ids_for(w);
+    (0..4usize)
+        .map(|k| {
+            let sp = build(k, first, n);
+            let bufs: Vec<Vec<u8>> = sp.define.iter().chain(sp.data.iter()).chain(sp.cross.iter()).map(|p| p.wire()).collect();
+            (KINDS[k], bufs)
+        })
+        .collect()
 }
